@@ -404,6 +404,18 @@ Error BaseRAPass::build_cfg_nodes() noexcept {
 }
 
 Error BaseRAPass::init_shared_assignments(Span<uint32_t> shared_assignments_map) noexcept {
+  // An indirect jump that has a single possible successor needs no shared assignment, however, the scratch register
+  // it jumps through still must not be assigned when entering the successor - the code that switches to successor's
+  // assignment is emitted before the jump, which reads that register.
+  for (RABlock* block : _blocks) {
+    if (block->has_jump_table()) {
+      Span<RABlock*> successors = block->successors();
+      if (successors.size() == 1u && !successors[0]->has_shared_assignment_id()) {
+        successors[0]->add_entry_scratch_gp_regs(block->exit_scratch_gp_regs());
+      }
+    }
+  }
+
   if (shared_assignments_map.is_empty()) {
     return Error::kOk;
   }
